@@ -265,6 +265,8 @@ def gen_case(rng, tier, ctx, i):
     case = {"poly": polygen.gen_poly(rng), "via": rng.choice(["method", "alias", "class", "direct"])}
     if rng.random() < 0.12:
         case["derive"] = rng.getrandbits(32)
+    elif rng.random() < 0.12:
+        case["redeclare"] = rng.getrandbits(32)
     return case
 
 
@@ -304,6 +306,22 @@ def _run(case, ctx):
         ctx.call("reduce", P.reduce, rows_vector=rc[0])
         ctx.call("reduce", P.reduce, columns_vector=rc[1])
     receiver_unchanged(ctx, case, P)
+    if case.get("redeclare") is not None and not case["poly"].get("dtype"):
+        # one column is re-declared afterwards (an element of P.variables replaced by a variable with other bounds) and the questions are asked again
+        import random
+        import puan
+        r_ = random.Random(case["redeclare"])
+        j = r_.randrange(1, len(P.variables))
+        v_ = P.variables[j]
+        lo_, hi_ = int(v_.bounds.lower), int(v_.bounds.upper)
+        nb_ = r_.choice([(lo_ - 2, hi_ + 1), (lo_, hi_ + 2), (lo_ - 1, hi_), (min(lo_ + 1, hi_), hi_)])
+        P.variables[j] = puan.variable(v_.id, bounds=(max(-32768, nb_[0]), min(32767, nb_[1])))
+        ctx.count("count:column-redeclared-in-place")
+        ctx.call("reducable_rows", P.reducable_rows)
+        ctx.call("reducable_columns_approx", P.reducable_columns_approx)
+        rc = ctx.call("reducable_rows_and_columns", P.reducable_rows_and_columns)
+        ctx.call("reduce", P.reduce, *rc)
+        return
     if case.get("derive") is not None:
         # a polyhedron derived from the first one by ordinary array operations (same rows in the same order, other entries)
         import random
